@@ -1,1 +1,475 @@
-pub fn run(_args: &[String]) {}
+//! C20: the assignability relation on a finite universe of types, computed by the
+//! real `is_superset_of` for ALL ordered pairs, then checked against the order
+//! laws over all pairs and triples (bitset matrix), and recomputed under several
+//! hash seeds.
+use std::collections::{BTreeMap, BTreeSet, HashMap};
+use std::convert::TryFrom;
+
+use mamba::check::context::Context;
+use mamba::check::name::string_name::StringName;
+use mamba::check::name::true_name::TrueName;
+use mamba::check::name::{IsSuperSet, Name, Nullable, Union};
+use mamba::common::position::Position;
+use mamba::parse::ast::AST;
+
+use crate::json::{arr, esc};
+use crate::serve::set_thread_seed;
+
+const SRC: &str = "class A\nclass B: A\nclass C: A\nclass D: B, C\nclass U\nclass E1(msg: Str): Exception(msg)\nclass E2(msg: Str): E1(msg)\n";
+
+#[derive(Clone)]
+struct Ty {
+    label: String,
+    name: Name,
+    // classification used by the laws
+    plain: Option<String>,        // a single non-generic, non-nullable class
+    nullable_of: Option<usize>,   // index of T for a T?
+    union_of: Option<(usize, usize)>,
+    is_none: bool,
+    is_any: bool,
+    callable: bool,
+}
+
+fn generic(name: &str, args: &[Name]) -> Name {
+    Name::from(&TrueName::from(&StringName::new(name, args)))
+}
+
+fn build_universe(ctx: &Context, depth: usize) -> Vec<Ty> {
+    let mut u: Vec<Ty> = vec![];
+    // every non-generic class of the context (built-ins from the stubs + user classes)
+    let mut plain: BTreeSet<String> = BTreeSet::new();
+    for c in &ctx.classes {
+        if c.name.generics.is_empty() {
+            plain.insert(c.name.name.clone());
+        }
+    }
+    let mk = |label: String, name: Name| Ty {
+        label,
+        name,
+        plain: None,
+        nullable_of: None,
+        union_of: None,
+        is_none: false,
+        is_any: false,
+        callable: false,
+    };
+    for p in &plain {
+        let mut t = mk(p.clone(), Name::from(p.as_str()));
+        t.plain = Some(p.clone());
+        t.is_none = p == "None";
+        t.is_any = p == "Any";
+        u.push(t);
+    }
+    let nplain = u.len();
+    // nullable variants
+    for i in 0..nplain {
+        if u[i].is_none {
+            continue;
+        }
+        let mut t = mk(format!("{}?", u[i].label), u[i].name.as_nullable());
+        t.nullable_of = Some(i);
+        u.push(t);
+    }
+    // unions of two members over the core names
+    let core = ["Int", "Float", "Complex", "Str", "Bool", "A", "B", "C", "D", "U", "E1", "E2", "Exception", "Range"];
+    let idx: HashMap<String, usize> = u.iter().enumerate().map(|(i, t)| (t.label.clone(), i)).collect();
+    for (a, la) in core.iter().enumerate() {
+        for lb in core.iter().skip(a + 1) {
+            let (i, j) = (idx[*la], idx[*lb]);
+            let mut t = mk(format!("{la}|{lb}"), u[i].name.union(&u[j].name));
+            t.union_of = Some((i, j));
+            u.push(t);
+        }
+    }
+    // unions with a nullable member / with None
+    for la in ["Int", "Str", "A", "B"] {
+        let i = idx[la];
+        let n = idx["None"];
+        let mut t = mk(format!("{la}|None"), u[i].name.union(&u[n].name));
+        t.union_of = Some((i, n));
+        u.push(t);
+    }
+    // generic instantiations
+    let args1 = ["Int", "Float", "Str", "A", "B", "Int?"];
+    let arg_names: Vec<(String, Name)> = args1.iter().map(|l| (l.to_string(), u[idx[*l]].name.clone())).collect();
+    let mut level: Vec<(String, Name)> = arg_names.clone();
+    for d in 0..depth {
+        let mut next: Vec<(String, Name)> = vec![];
+        let inner: Vec<(String, Name)> = if d == 0 { level.clone() } else { level.iter().take(24).cloned().collect() };
+        for (l, n) in &inner {
+            next.push((format!("List[{l}]"), generic("List", &[n.clone()])));
+            next.push((format!("Set[{l}]"), generic("Set", &[n.clone()])));
+            next.push((format!("Collection[{l}]"), generic("Collection", &[n.clone()])));
+        }
+        let pair_inner: Vec<(String, Name)> = if d == 0 { inner.clone() } else { inner.iter().take(8).cloned().collect() };
+        for (l1, n1) in &pair_inner {
+            for (l2, n2) in &pair_inner {
+                next.push((format!("Tuple[{l1},{l2}]"), generic("Tuple", &[n1.clone(), n2.clone()])));
+                next.push((format!("Dict[{l1},{l2}]"), generic("Dict", &[n1.clone(), n2.clone()])));
+            }
+        }
+        for (l, n) in &next {
+            u.push(mk(l.clone(), n.clone()));
+        }
+        // nullable generic
+        for (l, n) in next.iter().take(12) {
+            u.push(mk(format!("{l}?"), n.as_nullable()));
+        }
+        level = next;
+    }
+    // function types (reflexivity only)
+    for (l, n) in arg_names.iter().take(3) {
+        let mut t = mk(
+            format!("({l})->{l}"),
+            generic("Callable", &[generic("Tuple", &[n.clone()]), n.clone()]),
+        );
+        t.callable = true;
+        u.push(t);
+    }
+    u
+}
+
+struct Matrix {
+    n: usize,
+    words: usize,
+    bits: Vec<u64>, // row-major: bit (i, j) = Ti.is_superset_of(Tj)
+    errors: Vec<(usize, usize, String)>,
+}
+
+impl Matrix {
+    fn get(&self, i: usize, j: usize) -> bool {
+        self.bits[i * self.words + j / 64] >> (j % 64) & 1 == 1
+    }
+}
+
+fn compute(ctx: &Context, u: &[Ty], threads: usize) -> Matrix {
+    let n = u.len();
+    let words = (n + 63) / 64;
+    let mut bits = vec![0u64; n * words];
+    let mut errors = vec![];
+    let rows: Vec<usize> = (0..n).collect();
+    let chunks: Vec<&[usize]> = rows.chunks((n + threads - 1) / threads.max(1)).collect();
+    std::thread::scope(|s| {
+        let mut hs = vec![];
+        for ch in chunks {
+            hs.push(s.spawn(move || {
+                let mut out: Vec<(usize, Vec<u64>, Vec<(usize, usize, String)>)> = vec![];
+                for &i in ch {
+                    let mut row = vec![0u64; words];
+                    let mut errs = vec![];
+                    for j in 0..n {
+                        match u[i].name.is_superset_of(&u[j].name, ctx, Position::invisible()) {
+                            Ok(true) => row[j / 64] |= 1 << (j % 64),
+                            Ok(false) => {}
+                            Err(e) => errs.push((i, j, e.first().map(|e| e.msg.clone()).unwrap_or_default())),
+                        }
+                    }
+                    out.push((i, row, errs));
+                }
+                out
+            }));
+        }
+        for h in hs {
+            for (i, row, errs) in h.join().expect("matrix thread") {
+                bits[i * words..(i + 1) * words].copy_from_slice(&row);
+                errors.extend(errs);
+            }
+        }
+    });
+    Matrix { n, words, bits, errors }
+}
+
+/// Equality of types as the relation sees them: mutually assignable.
+fn equiv(a: &Name, b: &Name, ctx: &Context) -> bool {
+    a == b
+        || (matches!(a.is_superset_of(b, ctx, Position::invisible()), Ok(true))
+            && matches!(b.is_superset_of(a, ctx, Position::invisible()), Ok(true)))
+}
+
+fn ancestors(ctx: &Context) -> BTreeMap<String, BTreeSet<String>> {
+    // independent reference: reflexive-transitive closure of the declared parents
+    let mut direct: BTreeMap<String, BTreeSet<String>> = BTreeMap::new();
+    for c in &ctx.classes {
+        let e = direct.entry(c.name.name.clone()).or_default();
+        for p in &c.parents {
+            e.insert(p.name.variant.name.clone());
+        }
+    }
+    let mut closure: BTreeMap<String, BTreeSet<String>> = BTreeMap::new();
+    for k in direct.keys() {
+        let mut seen: BTreeSet<String> = BTreeSet::new();
+        let mut stack = vec![k.clone()];
+        while let Some(x) = stack.pop() {
+            if !seen.insert(x.clone()) {
+                continue;
+            }
+            if let Some(ps) = direct.get(&x) {
+                for p in ps {
+                    stack.push(p.clone());
+                }
+            }
+        }
+        closure.insert(k.clone(), seen);
+    }
+    closure
+}
+
+pub fn run(args: &[String]) {
+    crate::serve::install_panic_hook();
+    let depth: usize = args.first().and_then(|s| s.parse().ok()).unwrap_or(1);
+    let nseeds: u64 = args.get(1).and_then(|s| s.parse().ok()).unwrap_or(4);
+    let seed0: u64 = args.get(2).and_then(|s| s.parse().ok()).unwrap_or(0);
+    let threads: usize = args.get(3).and_then(|s| s.parse().ok()).unwrap_or(16);
+
+    let mut viol: Vec<String> = vec![];
+    let emit = |law: &str, detail: String, v: &mut Vec<String>| {
+        let key = format!("{{\"law\":{},", esc(law));
+        if v.iter().filter(|x| x.starts_with(&key)).count() < 200 {
+            v.push(format!("{{\"law\":{},\"detail\":{}}}", esc(law), esc(&detail)));
+        }
+    };
+    let mut counts: BTreeMap<&str, u64> = BTreeMap::new();
+    let mut failed: BTreeMap<&str, u64> = BTreeMap::new();
+
+    // the base matrix under seed0, built on a seeded thread
+    let build = move |seed: u64| {
+        std::thread::Builder::new()
+            .stack_size(crate::serve::STACK)
+            .spawn(move || {
+                set_thread_seed(seed);
+                let ast: AST = SRC.parse::<AST>().expect("universe source parses");
+                let ctx = Context::try_from(&[ast][..]).expect("context");
+                let u = build_universe(&ctx, depth);
+                let m = compute(&ctx, &u, threads);
+                let anc = ancestors(&ctx);
+                // union algebra by == on this seed
+                let mut alg: Vec<String> = vec![];
+                let mut neq = 0u64;
+                let small: Vec<usize> = (0..u.len()).filter(|i| u[*i].plain.is_some() || u[*i].nullable_of.is_some()).take(48).collect();
+                for &a in &small {
+                    if !equiv(&u[a].name.union(&u[a].name), &u[a].name, &ctx) {
+                        alg.push(format!("idempotent: {0} ∪ {0} != {0}", u[a].label));
+                    }
+                    for &b in &small {
+                        let ab = u[a].name.union(&u[b].name);
+                        let ba = u[b].name.union(&u[a].name);
+                        if !equiv(&ab, &ba, &ctx) {
+                            alg.push(format!("commutative: {} ∪ {}", u[a].label, u[b].label));
+                        }
+                    }
+                }
+                let tiny: Vec<usize> = small.iter().cloned().take(16).collect();
+                for &a in &tiny {
+                    for &b in &tiny {
+                        for &c in &tiny {
+                            let l = u[a].name.union(&u[b].name).union(&u[c].name);
+                            let r = u[a].name.union(&u[b].name.union(&u[c].name));
+                            if l != r {
+                                neq += 1;
+                            }
+                            if !equiv(&l, &r, &ctx) {
+                                alg.push(format!("associative: ({0} ∪ {1}) ∪ {2} = {3} but {0} ∪ ({1} ∪ {2}) = {4}", u[a].label, u[b].label, u[c].label, l, r));
+                            }
+                        }
+                    }
+                }
+                let _ = neq;
+                (u, m, anc, alg, small.len(), tiny.len())
+            })
+            .expect("spawn")
+            .join()
+    };
+    let (u, m, anc, alg, nsmall, ntiny) = match build(seed0) {
+        Ok(x) => x,
+        Err(_) => {
+            let (loc, msg) = crate::serve::take_panic();
+            println!("S {{\"panic\":{}}}", esc(&format!("{loc}: {msg}")));
+            return;
+        }
+    };
+    let n = m.n;
+    for a in alg {
+        *failed.entry("union-algebra").or_default() += 1;
+        emit("union-algebra", a, &mut viol);
+    }
+    *counts.entry("union-algebra").or_default() += (nsmall + nsmall * nsmall + ntiny * ntiny * ntiny) as u64;
+    for (i, j, e) in &m.errors {
+        // an error instead of an answer: not a law violation by itself, reported separately
+        if *i == *j {
+            *failed.entry("reflexive").or_default() += 1;
+            emit("reflexive", format!("{} vs itself: error {}", u[*i].label, e), &mut viol);
+        }
+    }
+    // reflexive
+    for i in 0..n {
+        *counts.entry("reflexive").or_default() += 1;
+        if !m.get(i, i) && !m.errors.iter().any(|(a, b, _)| a == b && *a == i) {
+            *failed.entry("reflexive").or_default() += 1;
+            emit("reflexive", format!("{} is not assignable to itself", u[i].label), &mut viol);
+        }
+    }
+    // transitive: R[i][j] & R[j][k] => R[i][k]   (row_j subset of row_i whenever bit(i,j))
+    for i in 0..n {
+        if u[i].callable {
+            continue;
+        }
+        for j in 0..n {
+            if i == j || u[j].callable || !m.get(i, j) {
+                continue;
+            }
+            *counts.entry("transitive").or_default() += n as u64;
+            for w in 0..m.words {
+                let missing = m.bits[j * m.words + w] & !m.bits[i * m.words + w];
+                if missing != 0 {
+                    for b in 0..64 {
+                        if missing >> b & 1 == 1 {
+                            let k = w * 64 + b;
+                            if k < n && !u[k].callable {
+                                *failed.entry("transitive").or_default() += 1;
+                                emit("transitive", format!("{k_} <= {j_} and {j_} <= {i_} but not {k_} <= {i_}", k_ = u[k].label, j_ = u[j].label, i_ = u[i].label), &mut viol);
+                            }
+                        }
+                    }
+                }
+            }
+        }
+    }
+    let any = u.iter().position(|t| t.is_any);
+    let none = u.iter().position(|t| t.is_none);
+    for (i, t) in u.iter().enumerate() {
+        if t.callable {
+            continue;
+        }
+        // Any above every non-nullable type
+        if let Some(a) = any {
+            if !t.name.is_nullable() && !t.is_none {
+                *counts.entry("any-top").or_default() += 1;
+                if !m.get(a, i) {
+                    *failed.entry("any-top").or_default() += 1;
+                    emit("any-top", format!("{} is not assignable to Any", t.label), &mut viol);
+                }
+            }
+        }
+        // nullable rules
+        if let Some(b) = t.nullable_of {
+            if u[b].is_any {
+                continue;
+            }
+            *counts.entry("nullable").or_default() += 3;
+            if !m.get(i, b) {
+                *failed.entry("nullable").or_default() += 1;
+                emit("nullable", format!("{} is not assignable to {}", u[b].label, t.label), &mut viol);
+            }
+            if let Some(nn) = none {
+                if !m.get(i, nn) {
+                    *failed.entry("nullable").or_default() += 1;
+                    emit("nullable", format!("None is not assignable to {}", t.label), &mut viol);
+                }
+                if m.get(b, nn) {
+                    *failed.entry("nullable").or_default() += 1;
+                    emit("nullable", format!("None is assignable to non-nullable {}", u[b].label), &mut viol);
+                }
+            }
+            if m.get(b, i) {
+                *failed.entry("nullable").or_default() += 1;
+                emit("nullable", format!("{} is assignable to {}", t.label, u[b].label), &mut viol);
+            }
+        }
+        // union rules
+        if let Some((a, b)) = t.union_of {
+            if u[a].is_none || u[b].is_none {
+                continue;
+            }
+            *counts.entry("union-accepts-members").or_default() += 2;
+            for x in [a, b] {
+                if !m.get(i, x) {
+                    *failed.entry("union-accepts-members").or_default() += 1;
+                    emit("union-accepts-members", format!("{} is not assignable to {}", u[x].label, t.label), &mut viol);
+                }
+            }
+            for (k, s) in u.iter().enumerate() {
+                if s.callable {
+                    continue;
+                }
+                *counts.entry("union-iff-members").or_default() += 1;
+                let want = m.get(k, a) && m.get(k, b);
+                if m.get(k, i) != want {
+                    *failed.entry("union-iff-members").or_default() += 1;
+                    emit(
+                        "union-iff-members",
+                        format!("{} <= {} is {} but members: {} <= it is {}, {} <= it is {}", t.label, s.label, m.get(k, i), u[a].label, m.get(k, a), u[b].label, m.get(k, b)),
+                        &mut viol,
+                    );
+                }
+            }
+        }
+    }
+    // nominal fragment against the independent ancestor closure
+    for (i, s) in u.iter().enumerate() {
+        for (j, t) in u.iter().enumerate() {
+            if let (Some(sup), Some(sub)) = (&s.plain, &t.plain) {
+                if s.is_none || t.is_none {
+                    continue;
+                }
+                *counts.entry("nominal").or_default() += 1;
+                let want = sup == "Any" || anc.get(sub).map_or(false, |a| a.contains(sup));
+                if m.get(i, j) != want {
+                    *failed.entry("nominal").or_default() += 1;
+                    emit("nominal", format!("{sub} <= {sup}: implementation says {}, ancestor closure says {want}", m.get(i, j)), &mut viol);
+                }
+            }
+        }
+    }
+    // order independence: the whole matrix again under other seeds
+    let mut seeds_done = 1u64;
+    for s in 1..nseeds {
+        match build(seed0 + s) {
+            Ok((u2, m2, _, alg2, _, _)) => {
+                seeds_done += 1;
+                *counts.entry("seed-independent").or_default() += (n * n) as u64;
+                if u2.len() != n || m2.bits != m.bits {
+                    let mut shown = 0;
+                    for i in 0..n.min(u2.len()) {
+                        for j in 0..n.min(u2.len()) {
+                            if m.get(i, j) != m2.get(i, j) && shown < 20 {
+                                shown += 1;
+                                *failed.entry("seed-independent").or_default() += 1;
+                                emit("seed-independent", format!("{} <= {}: {} under seed {}, {} under seed {}", u[j].label, u[i].label, m.get(i, j), seed0, m2.get(i, j), seed0 + s), &mut viol);
+                            }
+                        }
+                    }
+                }
+                for a in alg2 {
+                    *failed.entry("union-algebra").or_default() += 1;
+                    emit("union-algebra", format!("seed {}: {a}", seed0 + s), &mut viol);
+                }
+            }
+            Err(_) => {
+                let (loc, msg) = crate::serve::take_panic();
+                *failed.entry("panic").or_default() += 1;
+                emit("panic", format!("seed {}: {loc}: {msg}", seed0 + s), &mut viol);
+            }
+        }
+    }
+    // rows for the end-to-end subset
+    let e2e: Vec<usize> = (0..n).filter(|i| u[*i].plain.is_some() || u[*i].nullable_of.is_some()).collect();
+    let rows = arr(e2e.iter().map(|&i| {
+        let row: String = e2e.iter().map(|&j| if m.get(i, j) { '1' } else { '0' }).collect();
+        esc(&row)
+    }));
+    let labels = arr(e2e.iter().map(|&i| esc(&u[i].label)));
+    println!("M {{\"labels\":{labels},\"rows\":{rows}}}");
+    let true_pairs: u64 = m.bits.iter().map(|w| w.count_ones() as u64).sum();
+    println!(
+        "S {{\"types\":{n},\"pairs\":{},\"true_pairs\":{true_pairs},\"errors\":{},\"seeds\":{seeds_done},\"laws\":{{{}}},\"failed\":{{{}}},\"violations\":{},\"samples\":{}}}",
+        n * n,
+        m.errors.len(),
+        counts.iter().map(|(k, v)| format!("{}:{}", esc(k), v)).collect::<Vec<_>>().join(","),
+        failed.iter().map(|(k, v)| format!("{}:{}", esc(k), v)).collect::<Vec<_>>().join(","),
+        arr(viol.iter().cloned()),
+        arr(u.iter().step_by((n / 12).max(1)).map(|t| esc(&t.label)))
+    );
+    for (i, j, e) in m.errors.iter().take(30) {
+        println!("E {{\"sup\":{},\"sub\":{},\"msg\":{}}}", esc(&u[*i].label), esc(&u[*j].label), esc(e));
+    }
+}
